@@ -119,6 +119,9 @@ def run_resolve(ctx, env, n, st):
         raise CheckBroken("model driver failed: %s" % merrs[:1])
     for (w, leaf, no_ext, tag), io, mo, ml in zip(worlds, iouts, mouts, mlines):
         st["hist"]["resolve:" + tag] = st["hist"].get("resolve:" + tag, 0) + 1
+        vp_ = version_profile(w)
+        if vp_:
+            st["hist"]["resolve:" + vp_] = st["hist"].get("resolve:" + vp_, 0) + 1
         st["evals"] += 1
         if io in ("PANIC", "<NOANSWER>") or mo == "OUTOFFUEL":
             st["fails"].append({"level": "resolve", "case": ml, "impl": io, "model": mo, "what": "panic / no answer / model out of fuel"})
@@ -163,7 +166,7 @@ def cli_world(sb, rng, presets, kind, env):
     nodes = {}
     links = []
     tag = kind
-    docgen = lambda g: config_doc(g, markers=True)   # noqa: E731
+    docgen = versioned(rng, lambda g: config_doc(g, markers=True))
     remote = None
     if kind == "chain":
         n = rng.choice([1, 2, 3, 4, 6, 9, 10, 11, 12])
@@ -327,6 +330,9 @@ def run_cli(ctx, env, n, st):
             w, leaf, tag = cli_world(sb, rng, env["presets"], kind, env)
             st["hist"]["cli:" + tag + ("+noext" if no_ext else "")] = st["hist"].get("cli:" + tag + ("+noext" if no_ext else ""), 0) + 1
             st["evals"] += 1
+            vp_ = version_profile(w)
+            if vp_:
+                st["hist"]["cli:" + vp_] = st["hist"].get("cli:" + vp_, 0) + 1
             m, _ = resolve_lines(w, leaf, no_ext)
             mo, rcm, errm = run_lines(env["model"], [m])
             if not mo:
@@ -373,6 +379,9 @@ def run_cli(ctx, env, n, st):
                 sb.write("flat/flat.toml", toml_text(flat, rng))
                 rc2, j2, err2 = show(sb, cli, "flat/flat.toml")
                 st["cli_spawns"] += 1
+                if vp_ == "versions:some-member-unsupported" and not no_ext:
+                    k_ = "cli:versions:some-member-unsupported:flattened-file-" + ("loads" if rc2 == 0 else "rejected")
+                    st["hist"][k_] = st["hist"].get(k_, 0) + 1
                 if (rc, j) != (rc2, j2) and not (rc == 2 and rc2 == 2):
                     ok = False
                     desc["flat"] = {"rc": rc2, "text": toml_text(flat), "stderr": err2[-300:]}
@@ -498,6 +507,132 @@ def run_discovered(ctx, env, st, n):
                 ctx.sample({"level": "discovered", "user_config": user_cfg, "leaf": toml_text(leaf), "base": toml_text(base), "full_chain_differs_from_leaf_alone": differs})
 
 
+# ------------------------------------------------------------------ chain members whose paths are not UTF-8 (fix D100)
+
+NONUTF8_PAIRS = [(b"d\xff", b"d\xfe", b"d\xfd"), (b"\xe9t\xe9", b"\xe8t\xe9", b"\xeat\xe9"), (b"d\xc3", b"d\xe2\x82", b"d\xf0\x9f"),
+                 (b"x\x80y", b"x\x81y", b"x\xbfy")]
+
+
+def run_nonutf8(ctx, env, st, n):
+    """Directories whose names differ only in bytes that are not UTF-8 (a lossy rendering maps them to one string).
+    The references go through symlinks with plain names (a TOML string cannot hold such bytes). An acyclic chain over
+    them must load and equal its hand-flattened file; a genuine cycle over them must still be reported."""
+    rng = ctx.rng
+    cli = env["cli"]
+    for idx in range(n):
+        names = rng.choice(NONUTF8_PAIRS)
+        shape = ["chain-2", "chain-3", "cycle"][idx % 3]
+        with Sandbox("sgv-c16-nonutf8-") as sb:
+            sb.write(".sloc-guard.toml", "")
+            proj = os.fsencode(os.path.realpath(sb.proj))
+            k = 3 if shape == "chain-3" else 2
+            dirs = [proj + b"/" + nm for nm in names[:k]]
+            links = [b"l0", b"l1", b"l2"][:k]
+            docs = [config_doc(rng, markers=False) for _ in range(k)]
+            for i, d in enumerate(dirs):
+                os.mkdir(d)
+                os.symlink(names[i], proj + b"/" + links[i])
+            for i in range(k):
+                v = ("t", dict(docs[i][1]))
+                if i + 1 < k:
+                    v[1]["extends"] = ("s", "../%s/a.toml" % links[i + 1].decode())
+                elif shape == "cycle":
+                    v[1]["extends"] = ("s", "../%s/a.toml" % links[0].decode())
+                with open(dirs[i] + b"/a.toml", "w") as fh:
+                    fh.write(toml_text(v, rng))
+            leaf = os.fsdecode(names[0] + b"/a.toml")
+            rc, j, err = show(sb, cli, leaf)
+            st["cli_spawns"] += 1
+            st["evals"] += 1
+            st["hist"]["cli:nonutf8-" + shape] = st["hist"].get("cli:nonutf8-" + shape, 0) + 1
+            desc = {"level": "cli-nonutf8", "shape": shape, "directories": [repr(nm) for nm in names[:k]],
+                    "symlinks": {l.decode(): repr(nm) for l, nm in zip(links, names)},
+                    "members (leaf first; each extends ../l<i+1>/a.toml)": [toml_text(d) for d in docs],
+                    "leaf": repr(names[0] + b"/a.toml"), "impl": {"rc": rc, "stderr": err[-500:]}}
+            if shape == "cycle":
+                if rc != 2 or "circular extends" not in err:
+                    st["fails"].append(dict(desc, what="a genuine cycle over directories with non-UTF-8 names is not reported (exit %d)" % rc))
+                else:
+                    st["agree_cli"] += 1
+                    st["nontrivial"].add("nonutf8:%d" % idx)
+                continue
+            acc = norm_alias(docs[-1])
+            for d in reversed(docs[:-1]):
+                acc = dmerge(acc, norm_alias(d))
+            sb.write("flat/flat.toml", toml_text(acc, rng))
+            rc2, j2, err2 = show(sb, cli, "flat/flat.toml")
+            st["cli_spawns"] += 1
+            if rc2 != 0:
+                raise CheckBroken("nonutf8 leg: the flattened file does not load: " + err2[-300:])
+            if (rc, j) != (rc2, j2):
+                what = "an ACYCLIC chain over directories whose names differ only in non-UTF-8 bytes " + (
+                    "is reported as circular" if "circular" in err else "differs from its hand-flattened file") + " (exit %d; the flattened file loads)" % rc
+                st["fails"].append(dict(desc, what=what, flat=toml_text(acc)))
+            else:
+                st["agree_cli"] += 1
+                st["nontrivial"].add("nonutf8:%d" % idx)
+
+
+# ------------------------------------------------------------------ byte-determinism of the observation point (fix D101)
+
+def run_determinism(ctx, env, st, n):
+    """`config show --format json` of one chain, three runs: the bytes must be identical (and parse to the flattened
+    file's output). The chain defines several [languages.<name>] tables spread over base and leaf (tables merge
+    recursively); a map printed in hash order differs from run to run."""
+    rng = ctx.rng
+    cli = env["cli"]
+    pool = ["aaa", "bbb", "ccc", "ddd", "eee", "fff", "zig2", "Xlang"]
+    for idx in range(n):
+        with Sandbox("sgv-c16-det-") as sb:
+            sb.write(".sloc-guard.toml", "")
+            names = rng.sample(pool, rng.randint(3, 6))
+            cut = rng.randint(0, len(names))
+
+            def lang(nm):
+                return ("t", {"extensions": ("a", [("s", nm)]), "single_line_comments": ("a", [("s", rng.choice(["#", "//", ";", "--"]))])})
+            base = config_doc(rng, markers=False)
+            leaf = config_doc(rng, markers=False)
+            if cut:
+                base[1]["languages"] = ("t", {nm: lang(nm) for nm in names[:cut]})
+            if cut < len(names):
+                leaf[1]["languages"] = ("t", {nm: lang(nm) for nm in names[cut:]})
+            flat = dmerge(norm_alias(base), norm_alias(leaf))
+            leaf[1]["extends"] = ("s", "base.toml")
+            sb.write("cfg/base.toml", toml_text(base, rng))
+            sb.write("cfg/leaf.toml", toml_text(leaf, rng))
+            sb.write("flat/flat.toml", toml_text(flat, rng))
+            outs = []
+            for _ in range(3):
+                rc, out, err = sb.run(cli, ["--color", "never", "config", "show", "--format", "json", "-c", "cfg/leaf.toml"], env={"RAYON_NUM_THREADS": "1"})
+                outs.append((rc, out))
+                st["cli_spawns"] += 1
+            rc2, j2, err2 = show(sb, cli, "flat/flat.toml")
+            st["cli_spawns"] += 1
+            st["evals"] += 1
+            st["hist"]["cli:determinism-%d-language-tables" % len(names)] = st["hist"].get("cli:determinism-%d-language-tables" % len(names), 0) + 1
+            desc = {"level": "cli-determinism", "files": {"cfg/base.toml": toml_text(base), "cfg/leaf.toml": toml_text(leaf)}, "language_tables": names,
+                    "command": "config show --format json -c cfg/leaf.toml (three runs)", "impl": {"rc": [o[0] for o in outs], "stderr": err[-300:]}}
+            if any(o[0] != 0 for o in outs) or rc2 != 0:
+                st["fails"].append(dict(desc, what="the chain or its flattened file does not load (exit %r / %d)" % ([o[0] for o in outs], rc2)))
+                continue
+            try:
+                j = json.loads(outs[0][1])
+                j.pop("extends", None)
+                j.pop("extends_sha256", None)
+            except ValueError:
+                j = "<unparsable>"
+            if j != j2:
+                st["fails"].append(dict(desc, what="config show of the chain differs from config show of the hand-flattened file", flat=toml_text(flat)))
+            elif len({o[1] for o in outs}) != 1:
+                def order(o):
+                    return re.findall(r'^    "(\w+)": \{$', o, re.M)
+                st["fails"].append(dict(desc, what="config show --format json of one unchanged chain is not deterministic: %d different outputs in three runs (order of the languages tables: %r)"
+                                        % (len({o[1] for o in outs}), [order(o[1]) for o in outs])))
+            else:
+                st["agree_cli"] += 1
+                st["nontrivial"].add("determinism:%d" % idx)
+
+
 def canon_report(out):
     """JSON output with run-dependent fields removed."""
     try:
@@ -601,6 +736,8 @@ def run(ctx):
     run_resolve(ctx, env, 2500 if quick else 25000, st)
     run_cli(ctx, env, 220 if quick else 1500, st)
     run_discovered(ctx, env, st, 14 if quick else 120)
+    run_nonutf8(ctx, env, st, 12 if quick else 60)
+    run_determinism(ctx, env, st, 8 if quick else 40)
     xcheck(ctx, cases, mouts, 60 if quick else 400)
     ctx.cov["evaluations"] = st["evals"]
     ctx.cov["distinct_nontrivial"] = len(st["nontrivial"])
@@ -612,11 +749,13 @@ def run(ctx):
                        "TOML values (scalars of every type, nested tables, string arrays, arrays of rule tables, markers at first and later positions, near-markers) "
                        "against the re-exported functions; (2) reference graphs (chains 1..13, graphs over <=5 files with self-loops and longer cycles, presets, offline "
                        "remote cache incl. hash, relative / dotted / absolute spellings, aliases, missing and malformed members, extends / extends_sha256 that are not strings in the leaf or in a base, "
-                       "structure.deny_files under its serde alias deny_file_patterns in any member, --no-extends) against "
+                       "structure.deny_files under its serde alias deny_file_patterns in any member, a `version` scalar that is missing / supported / unsupported / ill-typed independently in every member "
+                       "(stale base under a current leaf, current base under a stale leaf, bad value in the middle: only the folded value may decide), --no-extends) against "
                        "the real ExtendsResolver over an in-memory FileSystem; (3) the same shapes on a real temp file system (symlinked files and directories) through "
                        "sgcli config show, compared with config show of the file flattened by the independent python fold; chain members whose paths differ only in letter case (file and "
                        "directory names) at levels 2 and 3; (4) --no-extends with a DISCOVERED leaf (./.sloc-guard.toml or the user-config fallback) through explain / check / stats, compared with the same "
-                       "leaf with its inheritance keys removed; --no-extends config validate against config validate of the leaf without its inheritance keys. Every case: impl vs extracted Coq model and impl vs "
+                       "leaf with its inheritance keys removed; (5) chains and cycles over directories whose names differ only in bytes that are not UTF-8 (references through symlinks), against the flattened file; "
+                       "(6) three runs of config show --format json on one chain that spreads 3-6 [languages.*] tables over base and leaf: byte-identical output required; --no-extends config validate against config validate of the leaf without its inheritance keys. Every case: impl vs extracted Coq model and impl vs "
                        "python spec. non-trivial = distinct case where the merge really combines both sides or a marker is involved (values), or a chain of >= 2 members / a cycle / a depth error (graphs)")
     ctx.cov["trusted_base"] = TRUSTED_COMMON + [
         "harness load_top replicates the value-level lines of FileConfigLoader::load_from_path (the CLI level runs the real loader)",
